@@ -21,7 +21,9 @@ func lbl(s string) [][]byte {
 var namePool = []string{"www.example.com", "cdn.example.net", "a.b", "host1.lan", "printer.local", "x", "mail.example.com",
 	"a-very-long-label-that-fills-the-sixty-four-byte-buffer-quickly.example.org", "edge.cdn.example.net"}
 var ptrOwners = []string{"4.3.2.1.in-addr.arpa", "129.0.168.192.in-addr.arpa", "1.0.0.127.in-addr.arpa", "255.255.255.255.in-addr.arpa"}
-var badPtrOwners = []string{"b.a.9.8.7.6.5.0.4.0.0.0.3.0.0.0.2.0.0.0.1.0.0.0.0.0.0.0.1.2.3.4.ip6.arpa", "_services._dns-sd._udp.local",
+var badPtrOwners = []string{"4.3.2.1", "::ffff:4.3.2.1.in-addr.arpa", "::1.in-addr.arpa", "1%2.3.2.1.in-addr.arpa", "4.3.2.1.5.in-addr.arpa",
+	"1000.3.2.1.in-addr.arpa", "00.0.0.0.in-addr.arpa", "0.0.0.0.in-addr.arpa", "in-addr.arpa", "1.in-addr.arpa", "a.3.2.1.in-addr.arpa",
+	"4.3.2.1.in-addr.arpa.lan", "4.3.2.1.in-addr", "-1.3.2.1.in-addr.arpa", "+1.3.2.1.in-addr.arpa", "1 .3.2.1.in-addr.arpa", "255.255.255.256.in-addr.arpa","b.a.9.8.7.6.5.0.4.0.0.0.3.0.0.0.2.0.0.0.1.0.0.0.0.0.0.0.1.2.3.4.ip6.arpa", "_services._dns-sd._udp.local",
 	"4.3.2.in-addr.arpa", "04.3.2.1.in-addr.arpa", "256.3.2.1.in-addr.arpa", "4.3.2.1.IN-ADDR.ARPA", "lb._dns-sd._udp.0.0.168.192.in-addr.arpa"}
 var ip4Pool = [][]byte{{192, 168, 0, 10}, {10, 0, 0, 1}, {8, 8, 8, 8}, {0, 0, 0, 0}}
 var ttlPool = []uint32{0, 60, 300, 86400, 0xffffffff}
@@ -36,6 +38,7 @@ type rr struct {
 	rdlenAdj int  // added to the true RDLENGTH
 	mark     string // mark placed at the start of the owner name
 	rdmark   string // mark placed at the start of RDATA
+	ownerLabels [][]byte // when set: the owner labels verbatim (labels may contain dots)
 }
 
 type response struct {
@@ -54,7 +57,9 @@ func (m response) build() []byte {
 			if r.mark != "" {
 				a.Mark(r.mark)
 			}
-			if r.ownerPtr != "" {
+			if r.ownerLabels != nil {
+				a.Name(r.ownerLabels, "")
+			} else if r.ownerPtr != "" {
 				a.Name(lbl(r.ownerHead), r.ownerPtr)
 			} else {
 				a.Name(lbl(r.owner), "")
@@ -74,15 +79,9 @@ func (m response) build() []byte {
 	return noColon(b)
 }
 
-// the model does not cover net.ParseIP's IPv6 text syntax: no ':' anywhere in a message
-func noColon(b []byte) []byte {
-	for i := range b {
-		if b[i] == ':' {
-			b[i] = ';'
-		}
-	}
-	return b
-}
+// (historical) the first model did not cover net.ParseIP's IPv6 text syntax; since the PTR owner is parsed
+// with netip.ParseAddr + Is4 every byte is allowed again
+func noColon(b []byte) []byte { return b }
 
 func pick[T any](rng *lib.Rand, l []T) T { return l[rng.Intn(len(l))] }
 
@@ -133,6 +132,11 @@ func genAnswers(rng *lib.Rand, qname string, n int, badPTR bool) []rr {
 			r.owner = pick(rng, ptrOwners)
 			if badPTR && rng.Chance(50) {
 				r.owner = pick(rng, badPtrOwners)
+			}
+			if badPTR && rng.Chance(10) { // dots inside labels: the dotted form looks like a reverse name
+				r.ownerLabels = pick(rng, [][][]byte{{[]byte("4.3"), []byte("2"), []byte("1"), []byte("in-addr"), []byte("arpa")},
+					{[]byte("4"), []byte("3"), []byte("2"), []byte("1"), []byte("in-addr.arpa")}, {[]byte("4.3.2.1.in-addr.arpa")},
+					{[]byte("4"), []byte("3"), []byte("2"), []byte("1.in-addr"), []byte("arpa")}})
 			}
 			r.rdmark = fmt.Sprintf("RD%d", i)
 			r.rdata = (&asm{}).Name(lbl(pick(rng, namePool)), "")
